@@ -202,12 +202,18 @@ func runC01(e *env) {
 	}
 	shadow := map[string]bool{}
 	kindCollision := map[string]bool{}
+	importedUnionPkgs := map[string][]string{} // module -> names of the other packages declaring a reached union
 	for i, o := range obs {
 		if shadowClass(o) != "" {
 			shadow[specs[i].Name] = true
 		}
 		if inputHasKindCollision(o) {
 			kindCollision[specs[i].Name] = true
+		}
+		for _, n := range o.Nameds {
+			if n.Kind == "KdUnion" && n.PkgPath != o.RootPkg {
+				importedUnionPkgs[specs[i].Name] = append(importedUnionPkgs[specs[i].Name], n.PkgName)
+			}
 		}
 	}
 
@@ -235,6 +241,15 @@ func runC01(e *env) {
 			cls := classifyCompileError(j.tgt, results[i][0])
 			if strings.HasSuffix(cls, ":kind-constant-redeclared") && !kindCollision[j.spec.Name] {
 				cls = j.tgt + ":other" // the recorded finding needs two unions sharing their first two letters and a member
+			}
+			if j.tgt == "gounions" && strings.HasSuffix(cls, ":other") {
+				// the wrapper of an union declared in another package is expected in that package (<pkg>.<Union>Wrapper):
+				// it exists only when gounions was run on that package too
+				for _, pn := range importedUnionPkgs[j.spec.Name] {
+					if regexp.MustCompile(`undefined: ` + regexp.QuoteMeta(pn) + `(\.\w+Wrapper)?$`).MatchString(results[i][0]) {
+						cls = j.tgt + ":wrapper-of-an-imported-union"
+					}
+				}
 			}
 			if j.spec.Class != "" && j.tgt == "gounions" {
 				cls = j.tgt + ":" + j.spec.Class
@@ -295,6 +310,8 @@ func corpusGoGen() []*modSpec {
 			modFile{"shapes.go", "package models\n\ntype Shape interface{ isShape() }\n\ntype Circle struct{ R int }\n\nfunc (Circle) isShape() {}\n"}),
 		mk("go-ignored-union-field", "package models\n\ntype Shape interface{ isShape() }\n\ntype Circle struct{ R int }\n\nfunc (Circle) isShape() {}\n\ntype T struct {\n\tA int\n\tS Shape `gomacro:\"ignore\"`\n\tP *Shape `gomacro:\"ignore\"`\n}\n"),
 		mk("go-select-keys-of-every-column-type", "package models\n\nimport \"time\"\n\ntype IdRoom int64\ntype Kind int\n\nconst (\n\tK0 Kind = iota\n\tK1\n)\n\ntype Label string\n\ntype Room struct {\n\tId IdRoom\n\tName string\n}\n\n// gomacro:SQL ADD UNIQUE(IdRoom, Start)\n// gomacro:SQL _SELECT KEY(Start)\n// gomacro:SQL _SELECT KEY(Kind)\n// gomacro:SQL _SELECT KEY(Label)\n// gomacro:SQL _SELECT KEY(Open, Ratio)\ntype Booking struct {\n\tId int64\n\tIdRoom IdRoom `gomacro-sql-foreign:\"Room\"`\n\tStart time.Time\n\tKind Kind\n\tLabel Label\n\tOpen bool\n\tRatio float64\n}\n"),
+		mk("go-named-containers-of-an-imported-union", "package models\n\nimport \"example.com/org/models/sub\"\n\ntype L []sub.Shape\n\ntype M map[string]sub.Shape\n\ntype T struct {\n\tA int\n\tS L\n\tD M\n}\n", modFile{"sub/sub.go", "package sub\n\ntype Shape interface{ isShape() }\n\ntype Circle struct{ R int }\n\nfunc (Circle) isShape() {}\n"}),
+		mk("go-struct-field-of-an-imported-union", "package models\n\nimport \"example.com/org/models/sub\"\n\ntype T struct {\n\tA int\n\tS sub.Shape\n}\n", modFile{"sub/sub.go", "package sub\n\ntype Shape interface{ isShape() }\n\ntype Circle struct{ R int }\n\nfunc (Circle) isShape() {}\n"}),
 		mk("go-subpackage-types", "package models\n\nimport \"example.com/org/models/sub\"\n\ntype T struct {\n\tId int64\n\tE sub.E\n\tS sub.S\n\tL []sub.S\n}\n", modFile{"sub/sub.go", "package sub\n\ntype E int\n\nconst (\n\tEA E = iota\n\tEB\n)\n\ntype S struct{ X, Y int }\n"}),
 	}
 }
